@@ -211,6 +211,8 @@ def run_case(case):
     w = Run(gen, inst)
     if expect[0] == "connect":
         return run_connect_case(w, expect)
+    if expect[0] == "slow-connect":
+        return run_slow_connect_case(w, expect)
     w.drive(**kw)
     label = f"at{gen} {kw}"
     if expect[0] == "ok":
@@ -281,6 +283,52 @@ def run_connect_case(w, expect):
     return None
 
 
+def run_slow_connect_case(w, expect):
+    """expect = ('slow-connect', seconds): EVERY connection attempt takes that long to be accepted (a slow network,
+    not a console that comes up late).  Below five seconds the first attempt simply succeeds at that time."""
+    lat = expect[1]
+    L = w.loop
+    w.net.auto = None
+    w.console.auto = True
+    w.start_init()
+    L.settle()
+    started = {}
+    guard = 0
+    while not w.init_result and guard < 2000:
+        guard += 1
+        if L.has_ready():
+            L.turn()
+            continue
+        for (fut, _f) in w.net.pending:
+            started.setdefault(id(fut), L.time())
+        due = [started[id(fut)] + lat for (fut, _f) in w.net.pending]
+        nd = L.next_deadline()
+        if due and (nd is None or min(due) <= nd):
+            L.advance_to(max(min(due), L.time()))
+            idx = due.index(min(due))
+            w.net.resolve(True, idx)
+            continue
+        if nd is None:
+            break
+        L.advance_to(nd)
+    L.settle()
+    label = f"at{w.gen} every connection attempt takes {lat} s"
+    if not w.init_result:
+        return f"{label}: init() never returned"
+    st, val, t = w.init_result[0]
+    if st != "returned":
+        return f"{label}: raised {val}"
+    if lat < 5.0:
+        if val is not True or t != lat:
+            return f"{label}: expected True at t={lat}, got {val} at t={t} ({len(w.net.conns)} connections, attempts at " \
+                   f"{[e[0] for e in w.net.log if e[1] == 'attempt']})"
+        if observed_model(w.at) != expected_model(w.inst):
+            return f"{label}: wrong model"
+    elif lat > 5.0 and (val is not False or t != 5.0):
+        return f"{label}: expected False at t=5.0, got {val} at t={t}"
+    return None
+
+
 def cases(gen, tier):
     insts = installations(gen, tier)
     out = []
@@ -311,6 +359,8 @@ def cases(gen, tier):
         out.append((gen, inst, {}, ("connect", lat, 0)))
     for ref in (1, 2, 3):
         out.append((gen, inst, {}, ("connect", None, ref)))
+    for lat in (0.5, 2.0 - EPS, 2.0, 2.0 + EPS, 3.0, 4.0 + EPS, 5.0 - EPS, 5.0 + EPS, 7.0):
+        out.append((gen, inst, {}, ("slow-connect", lat)))
     return out
 
 
